@@ -1291,6 +1291,19 @@ func (mgr *Manager) UpdateTag(name string, operation UpdateTagOperation) error {
 				mgr.startConverterJobIfNeeded()
 			}
 			if info.convertersUpdated {
+				// validate the selection before changing anything
+				attachedNames := tag.converterNames()
+				for _, converterName := range info.setConverterNames {
+					if slices.Contains(attachedNames, converterName) {
+						continue
+					}
+					if _, ok := mgr.converters[converterName]; !ok {
+						return fmt.Errorf("unknown converter %q", converterName)
+					}
+					if !tag.allowsConverters() {
+						return fmt.Errorf("failed to attach converter %q to tag %q: query is too complex", converterName, name)
+					}
+				}
 				// detach deselected converters from tag
 				for _, converter := range slices.Clone(tag.converters) {
 					if slices.Contains(info.setConverterNames, converter.Name()) {
@@ -1923,6 +1936,11 @@ func (mgr *Manager) restartConverterProcess(path string) error {
 	return nil
 }
 
+// allowsConverters reports whether the tag's query is simple enough to attach converters to it.
+func (t *tag) allowsConverters() bool {
+	return t.features.MainFeatures&query.FeatureFilterData == 0 && t.features.SubQueryFeatures&query.FeatureFilterData == 0 && len(t.features.MainTags) == 0 && len(t.features.SubQueryTags) == 0
+}
+
 func (mgr *Manager) attachConverterToTag(tag *tag, tagName string, converter *converters.CachedConverter) error {
 	// check if converter already exists
 	if slices.Contains(tag.converters, converter) {
@@ -1932,7 +1950,7 @@ func (mgr *Manager) attachConverterToTag(tag *tag, tagName string, converter *co
 	// cannot attach converter to tag which references other tags or matches on stream data
 	// because we don't want to recursively trigger converters
 	// TODO: we could allow data queries if they only reference the stream's own plain data
-	if tag.features.MainFeatures&query.FeatureFilterData != 0 || tag.features.SubQueryFeatures&query.FeatureFilterData != 0 || len(tag.features.MainTags) > 0 || len(tag.features.SubQueryTags) > 0 {
+	if !tag.allowsConverters() {
 		return fmt.Errorf("error: cannot attach converter to tag %s because it's query is too complex", tagName)
 	}
 
